@@ -308,12 +308,13 @@ theorem path_reresolves_result {d : Node} (hd : d.WF) (hc : W1.docClear d = true
   exact h3 hok hal mt' dsc'
 
 open Ypv.Acc in
-/-- **`[parent()]` and the reported path — C02-K5 as an explicit hypothesis.**  The evaluator model's
+/-- **`[parent()]` and the reported path — key and index sections.**  The evaluator model's
 `ctxUp c 1` (what `KeywordSearches.parent` leaves) drops the last path section; the library pops it
 with `YAMLPath.pop()`.  For coordinates whose sections are those of the steps `s0 :: r ++ [s]` (all
 expressible) and whose LAST section is not an anchor section, `pop()` on the accumulated object
 returns the last segment and leaves exactly the text of the object accumulated for `ctxUp c 1`.
-For an anchor section it does not (kernel-checked in `Lemmas/PathPop.lean`: `a.[&x]` stays `a.[&x]`). -/
+For an anchor section see `pop_anchor_is_ctxUp` below (before /repo 8d0a378 it did not: `a.[&x]`
+stayed `a.[&x]`, finding C02-K5). -/
 theorem pop_is_ctxUp (c : Ctx) (s0 : Sec) (r : List Sec) (s : Sec)
     (hpath : c.path = (s0 :: (r ++ [s])).map Sec.mtext)
     (hok : (s0 :: (r ++ [s])).all Sec.ok = true) (hna : s.isAnc = false) :
@@ -329,6 +330,34 @@ theorem pop_is_ctxUp (c : Ctx) (s0 : Sec) (r : List Sec) (s : Sec)
     · exact Or.inr (Or.inl h)))
   rw [hpath, pop_section s0 r s hok' hna', hup, hacc]
   simpa [PathObj.new, PathObj.setOriginal] using hnt.symm
+
+open Ypv.Acc in
+/-- **`[parent()]` past an anchor section — the former finding C02-K5, repaired by /repo 8d0a378.**  When
+the LAST section of the coordinates is an anchor section `[&a]`, `pop()` on the accumulated object
+returns the anchor segment and leaves (as the text of the object) the canonical string `S` of the path
+accumulated for `ctxUp c 1` — `str()` of the parent's reported path — which parses to the segments
+naming the steps before.  (`path_reresolves` says what `S` resolves to.)  Before the repair the text
+stayed as it was: the parent was reported under a path that still named the anchor. -/
+theorem pop_anchor_is_ctxUp (c : Ctx) (s0 : Sec) (r : List Sec) (a : Str)
+    (hpath : c.path = (s0 :: (r ++ [Sec.anc a])).map Sec.mtext)
+    (hok : (s0 :: (r ++ [Sec.anc a])).all Sec.ok = true) :
+    ∃ S, reported (ctxUp c 1) = .ok S ∧
+      C08.popView (accObj c.path) = .ok ((Sec.anc a).lseg.seg false, normOriginal S) ∧
+      parse true S = .ok ((s0 :: r).map Sec.seg) := by
+  have hok' : ∀ x ∈ s0 :: (r ++ [Sec.anc a]), x.ok = true := List.all_eq_true.mp hok
+  have hokr : ∀ x ∈ s0 :: r, x.ok = true := fun x hx => hok' x (by
+    simp only [List.mem_cons, List.mem_append] at hx ⊢
+    rcases hx with h | h
+    · exact Or.inl h
+    · exact Or.inr (Or.inl h))
+  have hup : (ctxUp c 1).path = (s0 :: r).map Sec.mtext := by
+    simp [ctxUp, hpath]
+  have hrep := reported_render (ctxUp c 1) s0 r hup hokr
+  obtain ⟨_, S, hS, hparse⟩ := reported_steps (ctxUp c 1) (s0 :: r) hup hokr
+  refine ⟨S, hS, ?_, hparse⟩
+  have hSe : S = render false (((s0 :: r).map Sec.lseg).map (Sim.LSeg.seg false)) := by
+    rw [hS] at hrep; exact Except.ok.inj hrep
+  rw [hpath, pop_section_anc s0 r a hok', hSe]
 
 /-! ### The hypotheses of `path_reresolves` are met, and each excluded class is a real failure -/
 
